@@ -54,18 +54,19 @@ def classify(kind, case):
         cls = c.get("Class", kind)
         if cls != "generated":
             return cls
-        # the exchange that was not answered completely / correctly: the first one not done, else any suspicious one
+        # the exchange that was not answered completely / correctly: the first one not done, else the last one
         ex = c.get("Exchs", [])
         done = case.get("done", len(ex))
-        cand = ex[done:done + 1] or ex
-        for x in cand + ex:
-            rq, rs = x["Req"], x["Resp"]
-            if rq["Proto"] == "HTTP/1.0" and rs["Framing"] == "chunked":
-                return "http10-client-chunked-origin"
-            if rs.get("Gzip") and "gzip" not in rq.get("AcceptE", ""):
-                return "gzip-solicited-by-proxy"
+        cand = ex[done:done + 1] or ex[-1:]
         x = cand[0]
-        return "e2e:%s/%s/%s/%s" % (x["Req"]["Method"], x["Req"]["Proto"], x["Resp"]["Framing"], x["Resp"]["Code"])
+        rq, rs = x["Req"], x["Resp"]
+        if rs["Framing"] == "none" and rs.get("Declare") and rs.get("Trailers"):
+            return "header-only-reply-with-declared-trailers"
+        if rq["Proto"] == "HTTP/1.0" and rs["Framing"] == "chunked":
+            return "http10-client-chunked-origin"
+        if rs.get("Gzip") and "gzip" not in rq.get("AcceptE", ""):
+            return "gzip-solicited-by-proxy"
+        return "e2e:%s/%s/%s/%s" % (rq["Method"], rq["Proto"], rs["Framing"], rs["Code"])
     return kind
 
 
